@@ -1003,6 +1003,7 @@ pub fn run(args: &Args) {
     for cell in ["radix/bytes", "adv/str", "co/sort", "co/oblivious", "co/sort_u8", "co/default", "simd/multi", "ext/vec", "ext/rev", "kv/u32", "kv/u64", "radix/u32_execute", "adv/u64_execute"] {
         cx.sum.cell_status(cell, "S-only");
     }
+    for cell in ["adv/str", "ext/rev", "kway/inter"] { cx.sum.cell_status(cell, "finding"); }
     if std::env::var("ZV_C11_TIMING").is_ok() { eprintln!("family time (us): {:?}", fam_ms); }
     cx.sum.dist_max("coq_cases", cx.shards.len() as u64);
     let sh = cx.shards.write(&args.out);
